@@ -185,7 +185,7 @@ Definition expected_shape : list (string * list string) :=
     ("Stream.__terminated__",
      ["if self.wrapper is not None"; "new StreamTerminatedError"; "call self.wrapper.cancel/1"; "endif"]);
     ("Stream.__ended__",
-     ["call self.buffer.eof/0"]);
+     ["call self.buffer.eof/0"; "call self.trailers_received.set/0"]);
     ("Stream.closable",
      ["if self._transport.is_closing()"; "call self._transport.is_closing/0"; "return"; "endif"; "if self._h2_connection.state_machine.state is ConnectionState.CLOSED"; "return"; "endif"; "call self._h2_connection.streams.get/1"; "if stream is None"; "return"; "endif"; "return"]);
     ("Stream.reset_nowait",
